@@ -4,7 +4,7 @@
  * Static C because a Go binary costs ~15 ms to start in this sandbox and this one ~2 ms.
  *
  * world.txt:   N <npkgs>
- *              P <idx> <name> <ver> <untracked> <ndeps> <dep idx>...
+ *              P <idx> <name> <ver> <untracked> <selfskip> <ndeps> <dep idx>...
  *              F <invocation index> <fault kind>
  * stub.log:    one line per invocation, tab separated key=value (see c20world.ParseLog)
  * stub.count:  one byte appended per invocation (its size is the invocation counter)
@@ -18,7 +18,7 @@
 #include <stdint.h>
 
 #define MAXP 16
-struct pkg { char name[64]; int ver; int untracked; int ndeps; int deps[MAXP]; };
+struct pkg { char name[64]; int ver; int untracked; int selfskip; int ndeps; int deps[MAXP]; };
 static struct pkg P[MAXP];
 static int NP = 0;
 static char root[1024];
@@ -26,7 +26,9 @@ static char outbuf[1 << 16], logprinted[1 << 16];
 static int outlen = 0, lplen = 0;
 
 static void state_id(int i, char *dst, size_t n) {
-    size_t k = snprintf(dst, n, "%s@%d[", P[i].name, P[i].ver);
+    size_t k;
+    if (P[i].selfskip) k = snprintf(dst, n, "%s@*[", P[i].name); /* own changes are not tracked */
+    else k = snprintf(dst, n, "%s@%d[", P[i].name, P[i].ver);
     int first = 1;
     for (int j = 0; j < P[i].ndeps; j++) {
         int d = P[i].deps[j];
@@ -83,10 +85,10 @@ int main(int argc, char **argv) {
     char line[4096];
     while (fgets(line, sizeof line, w)) {
         if (line[0] == 'P') {
-            int idx, off = 0; char name[64]; int ver, un, nd;
-            if (sscanf(line, "P %d %63s %d %d %d%n", &idx, name, &ver, &un, &nd, &off) < 5 || idx >= MAXP) continue;
+            int idx, off = 0; char name[64]; int ver, un, ss, nd;
+            if (sscanf(line, "P %d %63s %d %d %d %d%n", &idx, name, &ver, &un, &ss, &nd, &off) < 6 || idx >= MAXP) continue;
             struct pkg *p = &P[idx];
-            strcpy(p->name, name); p->ver = ver; p->untracked = un; p->ndeps = nd;
+            strcpy(p->name, name); p->ver = ver; p->untracked = un; p->selfskip = ss; p->ndeps = nd;
             char *q = line + off;
             for (int j = 0; j < nd && j < MAXP; j++) { p->deps[j] = (int)strtol(q, &q, 10); }
             if (idx + 1 > NP) NP = idx + 1;
